@@ -252,7 +252,14 @@ def _str(*a):
     with NoTracing():
         if len(a) == 1 and isinstance(a[0], BaseException):
             return EXC_TEXT
-    return _old_str(*a)
+    try:
+        return _old_str(*a)
+    except TypeError as e:
+        # C-level containers (tuple/list/dict) rendering embedded symbolics: diagnostic text only
+        with NoTracing():
+            if "returned non-string" in str(e):
+                return OPAQUE
+        raise
 
 
 core._PATCH_REGISTRATIONS[repr] = _repr
